@@ -44,9 +44,17 @@ build_clisim() {
   mkdir -p "$d"
   { cat "$REPO/go.mod"; echo; echo "require verifsim v0.0.0"; echo "replace verifsim => $V/sim"; } > "$d/go.mod"
   cp "$REPO/go.sum" "$d/go.sum"
-  cat > "$d/overlay.json" <<EOF
-{"Replace": {"$REPO/internal/verif_clisim_test.go": "$V/sim/clisim/verif_clisim_test.go.txt"}}
+  # the console part calls the command's unexported renderers; if their signatures differ in the
+  # tree under test it does not compile: then a stub takes its place (only C14's console stage needs it)
+  local console
+  for console in verif_console_test.go.txt verif_console_stub.go.txt; do
+    cat > "$d/overlay.json" <<EOF
+{"Replace": {"$REPO/internal/verif_clisim_test.go": "$V/sim/clisim/verif_clisim_test.go.txt", "$REPO/internal/verif_console_test.go": "$V/sim/clisim/$console"}}
 EOF
-  (cd "$REPO" && go test -c -vet=off -modfile="$d/go.mod" -overlay "$d/overlay.json" -o "$out" ./internal) || { rm -rf "$d"; infra "build of the clisim driver failed"; }
-  rm -rf "$d"
+    if (cd "$REPO" && go test -c -vet=off -modfile="$d/go.mod" -overlay "$d/overlay.json" -o "$out" ./internal) 2> "$d/err"; then
+      [ "$console" = verif_console_stub.go.txt ] && echo "note: console renderers of the tree under test have other signatures; console stage unavailable" >&2
+      rm -rf "$d"; return 0
+    fi
+  done
+  cat "$d/err" >&2; rm -rf "$d"; infra "build of the clisim driver failed"
 }
